@@ -28,6 +28,9 @@ EARN_TYPES = ("AIRDROP", "HARDFORK", "INCOME", "INTEREST", "MINING", "STAKING", 
 OUT_TYPES = ("DONATE", "FEE", "GIFT", "LOST", "SELL", "STAKING")
 
 ALL = "ALL"
+# spreadsheet rows start at 8 so that short histories straddle the 1-digit / 2-digit row boundary (ids are compared as
+# zero-padded strings inside the engine)
+ROW_BASE = 8
 
 
 def B(price: Any, amount: Any, acct: int = 0, typ: str = "BUY") -> Tuple[Any, ...]:
@@ -119,7 +122,7 @@ def materialize(
         tz = item[2] if len(item) > 2 else 0
         t = t + STEPS[step]
         ts = ts_str(t, tz)
-        row = 10 + (i if row_order == "chrono" else (n - 1 - i))
+        row = ROW_BASE + (i if row_order == "chrono" else (n - 1 - i))
         kind = sym[0]
         spec: Dict[str, Any]
         if kind in ("B", "E"):
